@@ -120,6 +120,10 @@ class OpCode(IntEnum):
     LOAD_CELL = auto()  # Load from cell: arg = cell slot (for outer function)
     STORE_CELL = auto()  # Store to cell: arg = cell slot (for outer function)
 
+    # Completion value of program code (the value eval returns)
+    SET_COMPLETION = auto()  # Pop the value of an expression statement into it
+    LOAD_COMPLETION = auto()  # Push it
+
 
 def disassemble(bytecode: bytes, constants: list) -> str:
     """Disassemble bytecode for debugging."""
